@@ -43,6 +43,9 @@ def load_record(tmp, sc, idx):
     genomes = [dict(g) for g in w['genomes']]
     for gi, a in sc.get('nulls', []):
         genomes[gi][a] = None
+    for gi, gj in sc.get('dup_ncbi', []):
+        genomes[gj]['ncbi_id'] = genomes[gi]['ncbi_id']          # legal: ncbi_id is unique only together with ncbi_db
+        genomes[gj]['ncbi_db'] = 'nuccore'
     w2 = dict(w, genomes=genomes)
     sig_order = sc['sig_order']
     W.build_db(d, dict(w2, genomes=[dict(g, **{store_attr: g[store_attr] if g[store_attr] is not None else f'none{j}'}) for j, g in enumerate(genomes)]),
@@ -176,6 +179,10 @@ def scenarios(ctx):
     yield dict(world=w, id_attr='genbank_acc', sig_order=list(range(n)), nulls=[(1, 'genbank_acc')], why='a genome with a null identifier')
     yield dict(world=w, id_attr='ncbi_id', sig_order=list(range(n)), nulls=[(0, 'ncbi_id')], why='a genome with a null identifier')
     yield dict(world=w, id_attr='key', sig_order=list(range(n)), nulls=[(2, 'refseq_acc')], why='null in an attribute that is not used: must load')
+    # two genomes sharing an ncbi_id (different ncbi_db): refusing is fine, a database lacking one of them is not
+    yield dict(world=w, id_attr='ncbi_id', sig_order=[0, 1, 2], dup_ncbi=[(0, 3)], why='two genomes share the id value')
+    yield dict(world=w, id_attr='ncbi_id', sig_order=[2, 1, 3], dup_ncbi=[(3, 0)], extra=[dict(extra1[0], pos=0, id=9999)], why='two genomes share the id value (unrelated signature too)')
+    yield dict(world=w, id_attr='key', sig_order=list(range(n)), dup_ncbi=[(0, 3)], why='shared ncbi_id but ids are keys: must load')
     # directory contents: every subset of six entries
     ents = [dict(name='ref', ext='.gdb', dir=False), dict(name='old', ext='.db', dir=False), dict(name='ref', ext='.gs', dir=False),
             dict(name='alt', ext='.h5', dir=False), dict(name='notes', ext='.txt', dir=False), dict(name='subdir', ext='', dir=True)]
